@@ -522,6 +522,28 @@ func decide(b *ssa.BasicBlock, idx int) (key string, val bool) {
 	}
 	// one and the same SSA value tested twice: if it is computed outside every loop it is computed once, and both
 	// tests see the same truth value (a flag such as isUpCounting consulted in several places)
+	// a flag kept in a field of a local struct (flags grouped into a small struct): keyed by the variable and the
+	// field; step() forgets the decision when a block that stores to the field is passed
+	if key, ok := localFieldKey(base); ok {
+		u := base.(*ssa.UnOp)
+		after := false
+		seenLoad := false
+		for _, in := range b.Instrs {
+			if in == ssa.Instruction(u) {
+				seenLoad = true
+				continue
+			}
+			if st, isSt := in.(*ssa.Store); isSt && seenLoad {
+				if k2, ok2 := localFieldAddrKey(st.Addr); ok2 && k2 == key {
+					after = true
+				}
+			}
+		}
+		if u.Block() == b && !after {
+			return key, (idx == 0) != neg
+		}
+		return "", false
+	}
 	_, isPhi := base.(*ssa.Phi)
 	if !isPhi && pureCond(base, 0) {
 		return Canon(base), (idx == 0) != neg // the same pure expression, wherever it is written
@@ -530,6 +552,27 @@ func decide(b *ssa.BasicBlock, idx int) (key string, val bool) {
 		return fmt.Sprintf("val@%p", base), (idx == 0) != neg
 	}
 	return "", false
+}
+
+// localFieldKey: v is a load of a field of a local struct variable that is only used through its fields.
+func localFieldKey(v ssa.Value) (string, bool) {
+	u, ok := v.(*ssa.UnOp)
+	if !ok || u.Op != token.MUL {
+		return "", false
+	}
+	return localFieldAddrKey(u.X)
+}
+
+func localFieldAddrKey(addr ssa.Value) (string, bool) {
+	fa, ok := addr.(*ssa.FieldAddr)
+	if !ok {
+		return "", false
+	}
+	al, ok := fa.X.(*ssa.Alloc)
+	if !ok || escapesWhole(al) {
+		return "", false
+	}
+	return fmt.Sprintf("fld@%p.%d", al, fa.Field), true
 }
 
 var onceOnlyCache = map[*ssa.BasicBlock]bool{}
@@ -566,6 +609,16 @@ func step(st bstate, i int, cut map[Edge]bool) (bstate, bool) {
 		return bstate{}, false
 	}
 	dec := st.dec
+	// stores to a local struct's field in the block being left invalidate what was known about that field
+	if strings.Contains(dec, ";fld@") {
+		for _, in := range st.b.Instrs {
+			if sto, ok := in.(*ssa.Store); ok {
+				if k, ok := localFieldAddrKey(sto.Addr); ok {
+					dec = strings.ReplaceAll(strings.ReplaceAll(dec, ";"+k+"=T", ""), ";"+k+"=F", "")
+				}
+			}
+		}
+	}
 	if key, val := decide(st.b, i); key != "" {
 		t, f := ";"+key+"=T", ";"+key+"=F"
 		if val {
@@ -1255,3 +1308,9 @@ func capturedAndStored(a *ssa.Alloc) bool {
 	}
 	return false
 }
+
+
+// LocalFieldKey / LocalFieldAddrKey identify a field of a local struct variable that is only used through its fields
+// (exported for rules that treat such a field like a local variable).
+func LocalFieldKey(v ssa.Value) (string, bool)        { return localFieldKey(v) }
+func LocalFieldAddrKey(addr ssa.Value) (string, bool) { return localFieldAddrKey(addr) }
